@@ -1,11 +1,19 @@
-"""NORM mode: executor-side normalisation of R-sorted terms to rational functions num/den over sparse
-multivariate polynomials (sympy PolyRing over QQ), reduced modulo the defining relations of the algebraic atoms
-(sqrt atoms r^2 = radicand, sign-free atoms, |x| with a^2 = x^2).  Anything else non-polynomial (uninterpreted
-functions, ite, integer div/mod) is an opaque generator identified by its hash-consed term, which is sound for
-proving identities (an identity that holds with the atom treated as a free variable holds for every value of it).
+"""NORM mode: executor-side normalisation of terms to rational functions num/den over sparse multivariate
+polynomials (sympy PolyRing over QQ), reduced modulo the defining relations of the atoms:
+
+* sqrt atoms r (r^2 = radicand), sign-free algebraic atoms, |x| (a^2 = x^2);
+* finite-domain integers: an int variable k with declared range [lo,hi) is replaced by one-hot indicators
+  e_{k,v} (e^2 = e, e_{k,v} e_{k,w} = 0, sum_v e_{k,v} = 1, the last one eliminated).  Every integer-valued
+  subterm over ranged variables is the multilinear polynomial sum_assignments value * prod indicators, every
+  comparison of such terms is the sum over satisfying assignments, and not/and/or/ite become 1-p, pq, p+q-pq,
+  c a + (1-c) b.  Functions on a finite domain have a unique multilinear representation in the independent
+  indicators, so this is a decision procedure for "ite over polynomial" obligations (indexing, gathers, sparse);
+* anything else (uninterpreted functions, comparisons of reals, unranged integer div/mod) is an opaque generator
+  identified by its hash-consed term (idempotent if Boolean) - sound for proving, incomplete.
 """
 from __future__ import annotations
 
+import itertools
 from fractions import Fraction
 
 from sympy.polys.domains import QQ
@@ -14,22 +22,77 @@ from sympy.polys.rings import ring
 from . import terms as T
 
 CANCEL_THRESHOLD = 8
+MAX_ENUM = 4096
 
 
 class NormFail(Exception):
     pass
 
 
+def _int_vars(t, memo):
+    """names of the variables a Z/B term depends on; None if it depends on anything real-valued"""
+    if not isinstance(t, T.Term):
+        return frozenset()
+    r = memo.get(t.id)
+    if r is not None or t.id in memo:
+        return r
+    if t.op == "var":
+        r = frozenset([t.args[0]]) if t.sort in (T.Z, T.B) else None
+    elif t.sort == T.R:
+        r = None
+    else:
+        acc = set()
+        r = None
+        ok = True
+        for a in t.args:
+            if isinstance(a, T.Term):
+                s = _int_vars(a, memo)
+                if s is None:
+                    ok = False
+                    break
+                acc |= s
+        if ok:
+            r = frozenset(acc)
+    memo[t.id] = r
+    return r
+
+
 class Normaliser:
-    def __init__(self, roots, cancel=CANCEL_THRESHOLD, max_terms=200000):
+    def __init__(self, roots, cancel=CANCEL_THRESHOLD, max_terms=200000, fixed=None):
         roots = [r for r in roots if isinstance(r, T.Term)]
+        self.fixed = dict(fixed or {})  # variable name -> constant implied by the path condition (var == const)
         self.nodes = T.reachable(roots)
         self.cancel = cancel
         self.max_terms = max_terms
-        gens = []
-        self.gen_of = {}  # term id -> generator name
+        self.gen_of = {}
+        self.ivmemo = {}
+        names = []
+        self.ranges = {}
+        self.ind_names = {}  # (var, value) -> generator name  (all but the last value)
+        groups = []
+        idem = []
         for t in self.nodes:
-            if t.op == "var" and t.sort in (T.R, T.Z):
+            if t.op == "var" and t.sort == T.Z and t.args[0] in T._RANGES:
+                lo, hi = T._RANGES[t.args[0]]
+                self.ranges[t.args[0]] = (lo, hi)
+                g = []
+                for v in range(lo, hi - 1):
+                    nm = f"e_{t.args[0]}_{v}"
+                    self.ind_names[(t.args[0], v)] = nm
+                    names.append(nm)
+                    g.append(nm)
+                groups.append(g)
+            elif t.op == "var" and t.sort == T.B:
+                nm = "b_" + t.args[0]
+                self.gen_of[t.id] = nm
+                names.append(nm)
+                idem.append(nm)
+        for t in self.nodes:
+            if t.id in self.gen_of:
+                continue
+            if t.op == "var" and t.sort == T.R:
+                self.gen_of[t.id] = "v_" + t.args[0]
+            elif t.op == "var" and t.sort == T.Z and t.args[0] not in self.ranges:
                 self.gen_of[t.id] = "v_" + t.args[0]
             elif t.op == "avar":
                 self.gen_of[t.id] = "a_" + t.args[0]
@@ -37,11 +100,18 @@ class Normaliser:
                 self.gen_of[t.id] = f"r_{t.id}"
             elif t.op == "abs" and t.sort == T.R:
                 self.gen_of[t.id] = f"m_{t.id}"
-            elif t.op in ("uf", "ite", "trunc") and t.sort == T.R:
+            elif t.op in ("uf", "trunc") and t.sort == T.R:
                 self.gen_of[t.id] = f"o_{t.id}"
-            elif t.sort == T.Z and t.op in ("floordiv", "pymod", "ite", "abs", "trunc"):
-                self.gen_of[t.id] = f"o_{t.id}"
-        names = [self.gen_of[t.id] for t in self.nodes if t.id in self.gen_of]
+            elif t.sort == T.Z and t.op != "var" and not self._enumerable(t):
+                if t.op in ("floordiv", "pymod", "trunc", "abs", "ite"):
+                    self.gen_of[t.id] = f"o_{t.id}"
+            elif t.sort == T.B and t.op in ("eq", "lt", "le") and not self._enumerable(t):
+                self.gen_of[t.id] = f"p_{t.id}"
+                idem.append(f"p_{t.id}")
+            else:
+                continue
+            if t.id in self.gen_of:
+                names.append(self.gen_of[t.id])
         if not names:
             names = ["dummy"]
         self.names = names
@@ -49,26 +119,113 @@ class Normaliser:
         self.R = R_
         self.G = dict(zip(names, G))
         self.idx = {n: i for i, n in enumerate(names)}
-        self.rel = {}  # generator index -> (num poly) with g^2 = num   (denominator-free)
+        self.rel = {}
         self.rel_order = []
-        self.cache = {}
+        self.groups = [[self.idx[n] for n in g] for g in groups if g]
+        self.group_of = {}
+        for gi, g in enumerate(self.groups):
+            for i in g:
+                self.group_of[i] = gi
+        self.idem = set(self.idx[n] for n in idem) | set(self.group_of)
         self.nf = {}
+        self.bp = {}
+        self.ind_cache = {}
         for t in self.nodes:
             self._conv(t)
 
+    def _enumerable(self, t):
+        vs = _int_vars(t, self.ivmemo)
+        if vs is None:
+            return False
+        size = 1
+        for v in vs:
+            if v not in T._RANGES:
+                return False
+            lo, hi = T._RANGES[v]
+            size *= max(hi - lo, 1)
+            if size > MAX_ENUM:
+                return False
+        return True
+
+    # -- indicators
+    def ind(self, var, val):
+        k = (var, val)
+        p = self.ind_cache.get(k)
+        if p is not None:
+            return p
+        lo, hi = self.ranges[var]
+        if var in self.fixed:
+            p = self.R.one if val == self.fixed[var] else self.R.zero
+        elif not lo <= val < hi:
+            p = self.R.zero
+        elif val < hi - 1:
+            p = self.G[self.ind_names[k]]
+        else:
+            p = self.R.one
+            for v in range(lo, hi - 1):
+                p = p - self.G[self.ind_names[(var, v)]]
+        self.ind_cache[k] = p
+        return p
+
+    def _enum_poly(self, t):
+        """multilinear indicator polynomial of an enumerable Z/B term"""
+        vs = sorted(_int_vars(t, self.ivmemo))
+        doms = [range(*T._RANGES[v]) for v in vs]
+        out = self.R.zero
+        for assign in itertools.product(*doms):
+            env = dict(zip(vs, assign))
+            try:
+                val = T.evalq([t], env)[0]
+            except ZeroDivisionError:
+                raise NormFail("integer division by zero under enumeration")
+            if isinstance(val, bool):
+                val = 1 if val else 0
+            if val == 0:
+                continue
+            m = self._c(val)
+            for v, a in zip(vs, assign):
+                m = m * self.ind(v, a)
+            out = out + m
+        return self.red(out)
+
     # -- relation reduction
     def red(self, p):
-        if not self.rel or p == 0:
+        if p == 0 or (not self.rel and not self.idem):
             return p
         R_ = self.R
         rel = self.rel
         relidx = self.rel_order
+        idem = self.idem
+        group_of = self.group_of
         while True:
             hit = False
             out = R_.zero
             for mon, coef in p.terms():
                 f = None
                 m = None
+                dead = False
+                if idem:
+                    seen_groups = None
+                    for i in idem:
+                        e = mon[i]
+                        if e:
+                            gi = group_of.get(i)
+                            if gi is not None:
+                                if seen_groups is None:
+                                    seen_groups = {gi: i}
+                                elif gi in seen_groups:
+                                    dead = True
+                                    break
+                                else:
+                                    seen_groups[gi] = i
+                            if e >= 2:
+                                if m is None:
+                                    m = list(mon)
+                                m[i] = 1
+                                hit = True
+                    if dead:
+                        hit = True
+                        continue
                 for i in relidx:
                     e = mon[i]
                     if e >= 2:
@@ -79,8 +236,10 @@ class Normaliser:
                         q = rel[i] ** k
                         f = q if f is None else f * q
                         hit = True
-                if f is None:
+                if m is None:
                     out += R_.term_new(mon, coef)
+                elif f is None:
+                    out += R_.term_new(tuple(m), coef)
                 else:
                     out += R_.term_new(tuple(m), coef) * f
             p = out
@@ -95,10 +254,22 @@ class Normaliser:
 
     def _pair(self, x):
         if isinstance(x, T.Term):
-            return self.nf[x.id]
+            r = self.nf.get(x.id)
+            if r is None:
+                raise NormFail(f"no normal form for {x.op}/{x.sort}")
+            return r
         if isinstance(x, bool):
-            raise NormFail("bool in arithmetic")
+            return (self.R.one if x else self.R.zero, self.R.one)
         return (self._c(x), self.R.one)
+
+    def _bpoly(self, x):
+        """0/1-valued polynomial of a Boolean cell"""
+        if isinstance(x, T.Term):
+            r = self.bp.get(x.id)
+            if r is None:
+                raise NormFail(f"no indicator form for {x.op}")
+            return r
+        return self.R.one if x else self.R.zero
 
     def _simp(self, n, d):
         R_ = self.R
@@ -117,6 +288,26 @@ class Normaliser:
         R_ = self.R
         op = t.op
         if t.sort == T.B:
+            self._conv_bool(t)
+            return
+        if t.sort == T.Z:
+            if t.op == "var" and t.args[0] in self.fixed and t.args[0] not in self.ranges:
+                self.nf[t.id] = (self._c(self.fixed[t.args[0]]), R_.one)
+            elif t.op == "var" and t.args[0] in self.ranges:
+                self.nf[t.id] = (self._enum_poly(t), R_.one)
+            elif t.id in self.gen_of:
+                self.nf[t.id] = (self.G[self.gen_of[t.id]], R_.one)
+            elif self._enumerable(t):
+                self.nf[t.id] = (self._enum_poly(t), R_.one)
+            elif op in ("add", "mul", "neg"):
+                self._conv_arith(t)
+            elif op == "ite":
+                self._conv_ite(t)
+            else:
+                raise NormFail(f"integer op {op} over unranged variables")
+            return
+        if op == "var" and t.args[0] in self.fixed:
+            self.nf[t.id] = (self._c(self.fixed[t.args[0]]), R_.one)
             return
         if t.id in self.gen_of:
             g = self.G[self.gen_of[t.id]]
@@ -128,7 +319,6 @@ class Normaliser:
                     self.rel_order.insert(0, i)
                     self.nf[t.id] = (g, R_.one)
                 else:
-                    # sqrt(n/d) = sqrt(n*d)/|d| ; |d| needs an abs generator unless d is a positive constant
                     raise NormFail("sqrt of a rational function with non-constant denominator")
                 return
             if op == "avar":
@@ -140,7 +330,7 @@ class Normaliser:
                 self.rel_order.insert(0, i)
                 self.nf[t.id] = (g, R_.one)
                 return
-            if op == "abs" and t.sort == T.R:
+            if op == "abs":
                 n, d = self._pair(t.args[0])
                 if d != R_.one:
                     raise NormFail("abs of rational function")
@@ -154,6 +344,24 @@ class Normaliser:
         if op == "toreal":
             self.nf[t.id] = self._pair(t.args[0])
             return
+        if op == "ite":
+            self._conv_ite(t)
+            return
+        self._conv_arith(t)
+
+    def _conv_ite(self, t):
+        R_ = self.R
+        c = self._bpoly(t.args[0])
+        (n1, d1), (n2, d2) = self._pair(t.args[1]), self._pair(t.args[2])
+        nc = R_.one - c
+        if d1 == d2:
+            self.nf[t.id] = self._simp(self.red(c * n1 + nc * n2), d1)
+        else:
+            self.nf[t.id] = self._simp(self.red(c * n1 * d2 + nc * n2 * d1), self.red(d1 * d2))
+
+    def _conv_arith(self, t):
+        R_ = self.R
+        op = t.op
         a = [self._pair(x) for x in t.args]
         if op == "add":
             (n1, d1), (n2, d2) = a
@@ -175,19 +383,39 @@ class Normaliser:
             raise NormFail(f"op {op} sort {t.sort}")
         self.nf[t.id] = res
 
+    def _conv_bool(self, t):
+        R_ = self.R
+        op = t.op
+        if op == "var" and t.args[0] in self.fixed:
+            p = R_.one if self.fixed[t.args[0]] else R_.zero
+        elif t.id in self.gen_of:
+            p = self.G[self.gen_of[t.id]]
+        elif op in ("eq", "lt", "le"):
+            p = self._enum_poly(t)
+        elif op == "not":
+            p = R_.one - self._bpoly(t.args[0])
+        elif op == "and":
+            p = self.red(self._bpoly(t.args[0]) * self._bpoly(t.args[1]))
+        elif op == "or":
+            a, b = self._bpoly(t.args[0]), self._bpoly(t.args[1])
+            p = self.red(a + b - a * b)
+        elif op == "iff":
+            a, b = self._bpoly(t.args[0]), self._bpoly(t.args[1])
+            p = self.red(R_.one - a - b + 2 * a * b)
+        elif op == "ite":
+            c, a, b = self._bpoly(t.args[0]), self._bpoly(t.args[1]), self._bpoly(t.args[2])
+            p = self.red(c * a + (R_.one - c) * b)
+        else:
+            raise NormFail(f"bool op {op}")
+        self.bp[t.id] = p
+        self.nf[t.id] = (p, R_.one)
+
     def diff_numerator(self, a, b):
         """reduced numerator of a - b (zero polynomial <=> identity wherever denominators do not vanish)"""
         (n1, d1), (n2, d2) = self._pair(a), self._pair(b)
         if d1 == d2:
             return self.red(n1 - n2)
         return self.red(n1 * d2 - n2 * d1)
-
-    def is_zero_diff(self, a, b):
-        p = self.diff_numerator(a, b)
-        if p == 0:
-            return True
-        # a non-zero residual may still vanish modulo the relations when atoms sit in denominators: rationalise once
-        return False
 
 
 def prove_equal_cells(pairs, cancel=CANCEL_THRESHOLD):
@@ -204,3 +432,22 @@ def prove_equal_cells(pairs, cancel=CANCEL_THRESHOLD):
         if p != 0:
             ok = False
     return ok, sizes
+
+
+def path_fixed(path):
+    """variable == constant facts stated directly by the path condition"""
+    fixed = {}
+    for c in path:
+        if not isinstance(c, T.Term):
+            continue
+        if c.op == "var" and c.sort == T.B:
+            fixed[c.args[0]] = True
+        elif c.op == "not" and isinstance(c.args[0], T.Term) and c.args[0].op == "var":
+            fixed[c.args[0].args[0]] = False
+        elif c.op == "eq":
+            a, b = c.args
+            if isinstance(a, T.Term) and a.op == "var" and not isinstance(b, T.Term):
+                fixed[a.args[0]] = b
+            elif isinstance(b, T.Term) and b.op == "var" and not isinstance(a, T.Term):
+                fixed[b.args[0]] = a
+    return fixed
